@@ -46,3 +46,4 @@ CFG = {'level': 'exploration',
 CFG['level_text'] += ' The edit universe includes a module path spelled `require`, a version pair differing in +incompatible only, and `indirect` markers with other white space than single blanks.'
 CFG['level_text'] += ' A sixth of the requested requirement lists repeat one entry (same path, same version), which asks for one requirement.'
 CFG['level_text'] += ' Sessions include calls the operations refuse (AddExclude/AddRetract with non-canonical or wrong-major versions, AddGoStmt/AddToolchainStmt with malformed versions, go.mod and go.work): the model does not move, an acceptance is a violation, and the session goes on.'
+CFG['level_text'] += ' Replacement targets include two module paths at the same version, so an AddReplace may change the path alone.'
